@@ -243,6 +243,8 @@ func main() {
 // racePhase: scenario-name prefixes that are explored a second time in race mode.
 var racePhase = map[string][]string{
 	"C20": {"C20/fallback/", "C20/sno/g2x2"},
+	"C09": {"C09/tracer/s2x1", "C09/tracer/s2x2", "C09/relay"},
+	"C13": {"C13/unit/duration", "C13/unit/R2/", "C13/unit/R-end"},
 }
 
 func runCheck(prop, tier, only string, budgetOverride time.Duration) int {
